@@ -9,7 +9,7 @@ func init() {
 		Explanation: "Decides the state-transfer plumbing: (R1) after a successful LoadSnapshot, Restore reloads the FSM state, refreshes the balloon version and rebuilds the hyper batch cache on every successful path (the set of in-memory structures initialised from the store by the constructors equals the set refreshed by Restore); " +
 			"(R2) errors on the transfer path are neither discarded nor swallowed, and a failed stream is not reported as a clean end; (R3) the leader's batch validator refuses gaps, skips what the follower already has and accepts the rest — decided on every ordering of (previous, new, last applied) by a finite order model — and advances on acceptance; " +
 			"(R4) the writer attaches {previous,new} version metadata to each batch where the validator reads it; (R5) the follower's request carries its own last applied version and sequence numbers.",
-		Added:       "Also (R5) the transfer request is described in Restore's region and reports n.state.BalloonVersion; (R6) transferred batches go through the write-ahead log; the load succeeds only on io.EOF (R2). Third round: (R7) the transfer is always requested, always streamed from the store, and the per-batch callback's refusal ends it.",
+		Added:       "Also (R5) the transfer request is described in Restore's region and reports n.state.BalloonVersion; (R6) transferred batches go through the write-ahead log; the load succeeds only on io.EOF (R2). Third round: (R7) the transfer is always requested, always streamed from the store, and the per-batch callback's refusal ends it. Fifth round: every error edge of the store's transfer returns the error it tested.",
 		Assumptions: []string{"RocksDB WAL iterator returns batches in sequence order"},
 		Declined:    "convergence for all down/up/compaction schedules, WAL iterator semantics, new-node join as a whole.",
 	}, runC09)
